@@ -1,0 +1,46 @@
+//! Verification hooks. Only compiled with the `verif` cargo feature; nothing here is reachable
+//! from a normal build.
+use std::sync::atomic::{AtomicBool, AtomicU64, AtomicUsize, Ordering};
+
+/// H1: when non-zero, every `GC_STRESS`-th call of `Gc::check_collect` collects regardless of the
+/// collect limit.
+pub static GC_STRESS: AtomicU64 = AtomicU64::new(0);
+static GC_STRESS_TICK: AtomicU64 = AtomicU64::new(0);
+/// Number of `check_collect` calls seen
+pub static ALLOC_CHECKS: AtomicU64 = AtomicU64::new(0);
+/// Number of collections run
+pub static COLLECTIONS: AtomicU64 = AtomicU64::new(0);
+/// Number of objects freed by sweeps
+pub static FREED: AtomicU64 = AtomicU64::new(0);
+/// Largest `allocated_memory` observed right after an allocation was accounted
+pub static PEAK_ALLOCATED: AtomicUsize = AtomicUsize::new(0);
+
+/// H2: when set, swept blocks are poisoned and leaked instead of returned to the allocator
+pub static QUARANTINE: AtomicBool = AtomicBool::new(false);
+/// Number of blocks quarantined
+pub static QUARANTINED: AtomicU64 = AtomicU64::new(0);
+
+pub fn stress_tick() -> bool {
+    ALLOC_CHECKS.fetch_add(1, Ordering::Relaxed);
+    let k = GC_STRESS.load(Ordering::Relaxed);
+    if k == 0 {
+        return false;
+    }
+    let t = GC_STRESS_TICK.fetch_add(1, Ordering::Relaxed) + 1;
+    t % k == 0
+}
+
+pub fn note_allocated(n: usize) {
+    PEAK_ALLOCATED.fetch_max(n, Ordering::Relaxed);
+}
+
+pub fn reset_counters() {
+    GC_STRESS_TICK.store(0, Ordering::Relaxed);
+    ALLOC_CHECKS.store(0, Ordering::Relaxed);
+    COLLECTIONS.store(0, Ordering::Relaxed);
+    FREED.store(0, Ordering::Relaxed);
+    PEAK_ALLOCATED.store(0, Ordering::Relaxed);
+}
+
+/// Byte written over the value part of a quarantined block
+pub const POISON: u8 = 0xDE;
